@@ -476,8 +476,9 @@ def run(ctx):
     ctx.extra["alphabet"] = {"full": [_hs([o]) for o in FULL], "sub": [_hs([o]) for o in SUB], "rel": [_hs([o]) for o in REL]}
     ctx.extra["initial_decks"] = INITS
     if ctx.thorough:
-        explorer.explore(ctx, System(FULL), 3, name="full-alphabet")
-        explorer.explore(ctx, System(SUB, INITS), 4, name="id-allocating-subalphabet")
+        explorer.explore(ctx, System(FULL), 2, name="full-alphabet/all-decks")
+        explorer.explore(ctx, System(FULL, SUB_INITS + ["rich", "names_1_5_3"]), 3, name="full-alphabet/depth3")
+        explorer.explore(ctx, System(SUB, MID_INITS), 4, name="id-allocating-subalphabet")
         explorer.explore(ctx, System(REL, ["contig/s256", "default"]), 4, name="relationship-sharing-subalphabet")
     else:
         explorer.explore(ctx, System(FULL), 1, name="full-alphabet/all-decks")
